@@ -210,7 +210,7 @@ func TestVerifC07Matchers(t *testing.T) {
 		respRules := c07GenRules(r, nUp, true, mr, stats)
 		reqFb := c07Out(r, nUp, false)
 		respFb := c07Out(r, nUp, true)
-		text := c07ConfigText(nUp, reqRules, reqFb, respRules, respFb)
+		text := c07ConfigText(nUp, nil, reqRules, reqFb, respRules, respFb)
 		dnsCfg, err := c07ParseConfig(text)
 		if err != nil {
 			t.Fatalf("generated config does not parse: %v\n%s", err, text)
